@@ -3,7 +3,7 @@
    id-encoding run (C01: Proofs/C01Source.v, src_init_ids). *)
 From Coq Require Import ZArith List Bool Lia.
 From Batchie Require Import Lib.Sexp Lib.PyRt Generated.Consts Model.Encode Model.Screen Generated.SrcEncode Generated.SrcScreenIds
-  Proofs.C03Screen Proofs.C12Source Proofs.C01Source.
+  Proofs.C03Screen Proofs.C12Source Proofs.C01Source_Init.
 Import ListNotations.
 Open Scope Z_scope.
 
